@@ -537,3 +537,13 @@ def c09_12(ctx, r):
     from .c04 import c04_4
 
     c04_4(ctx, r)
+
+
+@rule(P, "C09.13", "T2", "a failure between the two file writes leaves the state unreadable (lock file re-created), never readable and half-updated", min_obligations=3)
+def c09_13(ctx, r):
+    """`whenever the status can be read` - after *any* exception under the cluster lock (an I/O error between the config write and the job-status
+    write, not only a version mismatch) the wrapper re-creates the lock file before re-raising, so that no reader can take the lock and see
+    counters ahead of (or behind) the job states."""
+    from .c11 import c11_7
+
+    c11_7(ctx, r)
